@@ -83,6 +83,29 @@ def mk_short_comment(l, r, i1=False, i2=False):
     return "{#" + h(l) + " c " + h(r) + "#}", ""
 
 
+def mk_raw_empty(l, r, i1=False, i2=False):
+    return ("{%" + h(l) + " raw " + h(i1) + "%}" + "{%" + h(i2) + " endraw " + h(r) + "%}"), ""
+
+
+def mk_comment_empty(l, r, i1=False, i2=False):
+    return ("{%" + h(l) + " comment " + h(i1) + "%}" + "{%" + h(i2) + " endcomment " + h(r) + "%}"), ""
+
+
+def mk_doc_empty(l, r, i1=False, i2=False):
+    return ("{%" + h(l) + " doc " + h(i1) + "%}" + "{%" + h(i2) + " enddoc " + h(r) + "%}"), ""
+
+
+def mk_if_empty(l, r, i1=False, i2=False):
+    return ("{%" + h(l) + " if true " + h(i1) + "%}" + "{%" + h(i2) + " endif " + h(r) + "%}"), ""
+
+
+def mk_output_empty(l, r, i1=False, i2=False):
+    return "{{" + h(l) + " '' " + h(r) + "}}", ""
+
+
+# block tags with an empty body, and an output of the empty string: singles, and pairs with an output on either side
+EKINDS = {"raw_empty": (mk_raw_empty, 4), "comment_empty": (mk_comment_empty, 4), "doc_empty": (mk_doc_empty, 4), "if_empty": (mk_if_empty, 4),
+          "output_empty": (mk_output_empty, 2)}
 KINDS = {
     "output": (mk_output, 2), "assign": (mk_assign, 2), "echo": (mk_echo, 2), "inline_comment": (mk_inline_comment, 2),
     "liquid": (mk_liquid, 2), "raw": (mk_raw, 4), "comment": (mk_comment, 4), "doc": (mk_doc, 4), "if": (mk_if, 4),
@@ -123,7 +146,7 @@ def expected(t0, t1, l, r, out):
 
 
 def _mk_real_single(kind):
-    mk, nflags = KINDS[kind]
+    mk, nflags = (KINDS.get(kind) or EKINDS[kind])
 
     def f(s0: int, s1: int, l: bool, r: bool, i1: bool, i2: bool) -> bool:
         """
@@ -161,8 +184,8 @@ def c10_real_short_comment(s0: int, s1: int, l: bool, r: bool) -> bool:
 
 
 def _mk_real_pair(k1, k2):
-    mk1, _ = KINDS[k1]
-    mk2, _ = KINDS[k2]
+    mk1, _ = (KINDS.get(k1) or EKINDS[k1])
+    mk2, _ = (KINDS.get(k2) or EKINDS[k2])
 
     def f(s1: int, l1: bool, r1: bool, l2: bool, r2: bool, ia: bool, ib: bool) -> bool:
         """
@@ -193,11 +216,22 @@ CONDITIONS = []
 for _k in KINDS:
     globals()["c10_real_" + _k] = _mk_real_single(_k)
     CONDITIONS.append({"fn": "c10_real_" + _k, "quick": 60, "thorough": 200, "sel_only": True})
+_ALLKINDS = dict(KINDS)
+_ALLKINDS.update(EKINDS)
 CONDITIONS.append({"fn": "c10_real_short_comment", "quick": 40, "thorough": 120, "sel_only": True})
 _QUICK_PAIRS = {("output", "output"), ("output", "raw"), ("raw", "output"), ("comment", "assign"), ("assign", "comment"),
                 ("doc", "output"), ("raw", "raw"), ("liquid", "inline_comment"), ("if", "raw"), ("comment", "comment")}
 for _k1 in KINDS:
     for _k2 in KINDS:
+        _n = "c10_pair_%s_%s" % (_k1, _k2)
+        globals()[_n] = _mk_real_pair(_k1, _k2)
+        CONDITIONS.append({"fn": _n, "quick": 60, "thorough": 150, "sel_only": True})
+
+
+for _k in EKINDS:
+    globals()["c10_real_" + _k] = _mk_real_single(_k)
+    CONDITIONS.append({"fn": "c10_real_" + _k, "quick": 60, "thorough": 200, "sel_only": True})
+    for _k1, _k2 in ((_k, "output"), ("output", _k), (_k, _k)):
         _n = "c10_pair_%s_%s" % (_k1, _k2)
         globals()[_n] = _mk_real_pair(_k1, _k2)
         CONDITIONS.append({"fn": _n, "quick": 60, "thorough": 150, "sel_only": True})
